@@ -341,6 +341,35 @@ def fixed_case(p, res):
         exp = exp * 16 + sid
     if float(out) != exp:
         res.viol("sequential", "ChannelCodeModel", "order", f"output {float(out)} is not the fold over the stages that ran ({exp})")
+    # one stage object in several roles (a self-inverse scrambler as encoder and decoder, one module as modulator and demodulator, one object in
+    # every role): every DECLARED role runs, in order
+    class Any6(BaseModel, BaseConstraint, BaseChannel, BaseModulator, BaseDemodulator):
+        def __init__(self, sid):
+            torch.nn.Module.__init__(self)
+            self.sid = sid
+
+        @property
+        def bits_per_symbol(self):
+            return 1
+
+        def forward(self, x, *a, **k):
+            sink.items.append((self.sid, _val(x), a, tuple(sorted(k.items()))))
+            return x * 16 + self.sid
+    for roles in ((1, 2, 3, 4, 5, 1), (1, 2, 3, 4, 3, 6), (1, 1, 1, 1, 1, 1), (1, 2, 3, 2, 5, 6)):
+        try:
+            objs = {sid: Any6(sid) for sid in set(roles)}
+            m = ChannelCodeModel(*[objs[sid] for sid in roles])
+            del sink.items[:]
+            out = m(x, k=1)
+        except Exception as e:  # noqa: BLE001
+            res.rejected += 1          # a model may decline such a construction (type checks); it may not run fewer stages than declared
+            continue
+        res.ev(1, nontrivial=1, transitions=1)
+        ran = [e[0] for e in sink.items]
+        decl = list(roles)
+        alt = [decl[0], decl[2], decl[1]] + decl[3:]
+        if ran not in (decl, alt):
+            res.viol("sequential", f"ChannelCodeModel,roles={''.join(map(str, roles))}", "exactly-once", f"declared stage objects (encoder, constraint, modulator, channel, demodulator, decoder) = {decl}, stages ran {ran}")
     res.sample({"pipelines": ["DeepJSCCModel", "ChannelCodeModel"]})
 
 
